@@ -25,7 +25,7 @@ type closeTableResult struct {
 	runs  int
 	und   string
 	gos   map[token.Pos]bool // the go statements the runs went through
-	field string           // the field of the receiver the closers were read from
+	field string             // the field of the receiver the closers were read from
 }
 
 // closeTable interprets the closing routine - with whatever helpers, visitors and launchers it is split into - on 0..3
